@@ -88,6 +88,76 @@ def build(fl):
     return p.returncode == 0 and os.path.exists(binary(fl)), p.stdout
 
 
+FUZZ_TARGET_DIR = os.path.join(TARGET, "fuzz")
+
+
+def fuzz_binary(target):
+    return os.path.join(FUZZ_TARGET_DIR, "x86_64-unknown-linux-gnu", "release", target)
+
+
+def build_fuzz():
+    """Build the libFuzzer targets (coverage instrumentation, no sanitizer: the full libc
+    interposition of the harness stays active) from /repo's current working tree."""
+    os.makedirs(FUZZ_TARGET_DIR, exist_ok=True)
+    env = dict(os.environ, CARGO_NET_OFFLINE="true")
+    cmd = ["cargo", "+nightly", "fuzz", "build", "--fuzz-dir", os.path.join(VERIF, "fuzz"), "--sanitizer", "none", "--target-dir", FUZZ_TARGET_DIR]
+    lock = open(os.path.join(FUZZ_TARGET_DIR, ".ipcv-build-lock"), "w")
+    fcntl.flock(lock, fcntl.LOCK_EX)
+    try:
+        p = subprocess.run(cmd, cwd=harness_dir(), env=env, stdout=subprocess.PIPE, stderr=subprocess.STDOUT, text=True)
+    finally:
+        fcntl.flock(lock, fcntl.LOCK_UN)
+        lock.close()
+    return p.returncode == 0, p.stdout
+
+
+def run_fuzz_job(job, seed, outdir, idx):
+    """One libFuzzer process: fixed number of runs, fixed seed, fresh corpus directory seeded with
+    the target's seed inputs.  A crash artifact is a violation (the oracle panics inside the target)."""
+    import re
+    import shutil
+    target = job["fuzz"]
+    corpus = os.path.join(outdir, "corpus-%s-%d" % (target, idx))
+    arts = os.path.join(REPLAYS, "")
+    shutil.rmtree(corpus, ignore_errors=True)
+    os.makedirs(corpus)
+    seeds_dir = os.path.join(VERIF, "fuzz", "seeds", target)
+    if os.path.isdir(seeds_dir):
+        for f in os.listdir(seeds_dir):
+            shutil.copy(os.path.join(seeds_dir, f), corpus)
+    prefix = os.path.join(REPLAYS, "%s-fuzz-%s-%d-%d-" % (job["prop"], target, os.getpid(), idx))
+    cmd = [fuzz_binary(target), corpus, "-runs=%d" % job["runs"], "-seed=%d" % (seed * 1000 + idx + 1), "-max_len=%d" % job.get("max_len", 512),
+           "-len_control=0", "-artifact_prefix=" + prefix, "-print_final_stats=1", "-timeout=60"]
+    env = dict(os.environ, RUST_BACKTRACE="0", IPCV_WATCHDOG="30")
+    t0 = time.time()
+    try:
+        p = subprocess.run(cmd, stdout=subprocess.PIPE, stderr=subprocess.STDOUT, text=True, timeout=job.get("timeout", 5400), env=env)
+        rc, out = p.returncode, p.stdout
+    except subprocess.TimeoutExpired as e:
+        rc, out = -999, "fuzz job timed out: %s" % e
+    runs = 0
+    m = re.search(r"stat::number_of_executed_units:\s*(\d+)", out)
+    if m:
+        runs = int(m.group(1))
+    cov = 0
+    for m in re.finditer(r"cov: (\d+)", out):
+        cov = max(cov, int(m.group(1)))
+    corpus_n = len(os.listdir(corpus))
+    artifacts = [prefix + f for f in os.listdir(REPLAYS) if (os.path.join(REPLAYS, f)).startswith(prefix)] if os.path.isdir(REPLAYS) else []
+    artifacts = [os.path.join(REPLAYS, f) for f in os.listdir(REPLAYS) if os.path.join(REPLAYS, f).startswith(prefix)]
+    detail = ""
+    k = out.find("VIOLATION-IN-FUZZ-TARGET")
+    if k >= 0:
+        detail = out[k:k + 600]
+    samples = []
+    for f in sorted(os.listdir(corpus))[:3]:
+        try:
+            samples.append(open(os.path.join(corpus, f), "rb").read()[:64].hex())
+        except OSError:
+            pass
+    return dict(job=job, rc=rc, runs=runs, cov=cov, corpus=corpus_n, artifacts=artifacts, detail=detail, tail=out[-1500:], wall=time.time() - t0, samples=samples)
+
+
 def build_all(fls):
     with ThreadPoolExecutor(max_workers=3) as ex:
         res = list(ex.map(lambda f: (f, build(f)), fls))
@@ -130,6 +200,8 @@ def run_job(job, tier, seed, outdir, idx):
 def expand_jobs(pid, cfg, tier, only_build=None):
     jobs = []
     for j in cfg["jobs"](tier):
+        if "fuzz" in j:
+            continue
         if only_build and j["build"] != only_build:
             continue
         n = j.get("shards", 1)
@@ -142,7 +214,10 @@ def main():
     args = sys.argv[1:]
     if args and args[0] == "--build-all":
         ok = build_all(list(FLAVOURS))
-        sys.exit(0 if ok else 2)
+        fok, flog = build_fuzz()
+        if not fok:
+            sys.stderr.write("BUILD FAILED for the fuzz targets:\n%s\n" % flog[-4000:])
+        sys.exit(0 if ok and fok else 2)
     if not args:
         print(__doc__)
         sys.exit(2)
@@ -178,6 +253,19 @@ def main():
     os.makedirs(EVID, exist_ok=True)
     os.makedirs(REPLAYS, exist_ok=True)
 
+    if replay and not replay.endswith(".json"):
+        # a libFuzzer crash artifact: re-run the target on exactly that input
+        target = cfg.get("fuzz_target")
+        ok, log = build_fuzz()
+        if not ok or not target:
+            sys.stderr.write(log[-4000:] if not ok else "no fuzz target for %s\n" % pid)
+            sys.exit(2)
+        p = subprocess.run([fuzz_binary(target), os.path.abspath(replay)])
+        if p.returncode != 0:
+            print("VIOLATION property=%s replay=%s" % (pid, os.path.abspath(replay)))
+            sys.exit(1)
+        print("replay passed")
+        sys.exit(0)
     if replay:
         doc = json.load(open(replay))
         fl = doc.get("build", "os")
@@ -209,6 +297,22 @@ def main():
     os.makedirs(outdir, exist_ok=True)
     with ThreadPoolExecutor(max_workers=maxjobs) as ex:
         results = list(ex.map(lambda t: run_job(t[1], tier, seed, outdir, t[0]), enumerate(jobs)))
+
+    # ---- coverage-guided jobs (thorough tiers of the properties that have a fuzz target) ---------
+    fuzz_results = []
+    fuzz_jobs = []
+    for j in cfg["jobs"](tier):
+        if "fuzz" in j:
+            for k in range(j.get("procs", 1)):
+                fuzz_jobs.append(dict(j, prop=pid))
+    if fuzz_jobs and not only_build:
+        fok, flog = build_fuzz()
+        if not fok:
+            sys.stderr.write("BUILD FAILED for the fuzz targets:\n%s\n" % flog[-4000:])
+            print("INCONCLUSIVE property=%s fuzz build failed" % pid)
+            sys.exit(2)
+        with ThreadPoolExecutor(max_workers=maxjobs) as ex:
+            fuzz_results = list(ex.map(lambda t: run_fuzz_job(t[1], seed, outdir, t[0]), enumerate(fuzz_jobs)))
 
     # ---- merge ----------------------------------------------------------------------------------
     evaluations = 0
@@ -287,6 +391,27 @@ def main():
         if r["rc"] not in (0, 1):
             infra.append("%s shard %d: exit code %s; stderr tail: %s" % (label, j["shard"], r["rc"], r["stderr"][-800:]))
 
+    fuzz_cov = {}
+    for fr in fuzz_results:
+        t = fr["job"]["fuzz"]
+        evaluations += fr["runs"]
+        e = fuzz_cov.setdefault(t, dict(processes=0, executions=0, max_coverage_edges=0, corpus_inputs=0))
+        e["processes"] += 1
+        e["executions"] += fr["runs"]
+        e["max_coverage_edges"] = max(e["max_coverage_edges"], fr["cov"])
+        e["corpus_inputs"] += fr["corpus"]
+        for i, sm in enumerate(fr["samples"]):
+            hashes.add("fuzz:%s:%s" % (t, sm))
+            if len(samples) < 28 and i == 0:
+                samples.append(dict(build="fuzz:" + t, **{"class": "coverage-increasing input (hex, first 64 bytes)", "case": sm}))
+        # every corpus entry is a distinct input that reached new coverage
+        for n in range(fr["corpus"]):
+            hashes.add("fuzz:%s:%d:%d" % (t, fuzz_results.index(fr), n))
+        if fr["artifacts"]:
+            violations.append(dict(signature="fuzz:%s:oracle-failed" % t, detail=fr["detail"] or fr["tail"][-600:], replay=fr["artifacts"][0], build="fuzz:" + t))
+        elif fr["rc"] != 0:
+            infra.append("fuzz target %s: exit %s without artifact: %s" % (t, fr["rc"], fr["tail"][-500:]))
+
     # ---- differential comparison across builds (same generated cases on every build) ----------
     programs = 0
     disagreements_checked = 0
@@ -331,6 +456,8 @@ def main():
         jobs=len(jobs),
         build_s=round(t_build, 1),
     )
+    if fuzz_cov:
+        coverage["coverage_guided_fuzzing"] = fuzz_cov
     if cfg.get("cross_build"):
         coverage["programs"] = programs
         coverage["disagreements_checked"] = disagreements_checked
